@@ -1,6 +1,6 @@
 SPECIFICATION Spec
 CONSTANT NMax = 130
-CONSTANT KMax = 40
+CONSTANT KMax = 64
 INVARIANT Symmetric
 INVARIANT RowSum
 INVARIANT Canonical
